@@ -51,10 +51,48 @@ def _check(case):
     with warnings.catch_warnings():
         warnings.simplefilter('ignore')
         others = [select_copula(X.copy()), select_copula(X[perm].copy()), Bivariate.select_copula(X.copy())]
+    # a result is an object of its own: later selections on other data leave it as it was
+    before = (c1.copula_type, float(c1.tau), float(c1.theta))
+    rs2 = np.random.RandomState(11)
+    other = np.sort(rs2.uniform(0.02, 0.98, size=(24, 2)), axis=0)         # concordant columns: positive tau, every family a candidate
+    other[[3, 9, 15], 1] = other[[9, 15, 3], 1]
+    try:
+        c_other = select_copula(other)
+        if c_other is c1 or any(c is c1 for c in others):
+            probs.append(('result-object-shared-between-calls', fam))
+        if (c1.copula_type, float(c1.tau), float(c1.theta)) != before:
+            probs.append(('earlier-result-changed-by-a-later-call', '%s tau/theta %r -> %r' % (fam, before[1:], (float(c1.tau), float(c1.theta)))))
+    except Exception as ex:
+        probs.append(('raised-' + type(ex).__name__, 'second data set'))
     for name, c in zip(('second-call', 'permuted-rows', 'deprecated-alias'), others):
         if c.copula_type != c1.copula_type or not (float(c.theta) == th or abs(float(c.theta) - th) <= 1e-12 * max(1, abs(th))):
             probs.append(('not-deterministic:' + name, '%s/%r vs %s/%r' % (fam, th, c.copula_type.name, float(c.theta))))
     return probs
+
+
+def _large(job):
+    """more than 5000 rows of weak dependence (the scores of the candidates are close): the choice is still a function of X alone -
+    repeated calls under different global generator states agree, and the global generator is left as it was"""
+    from copulas.bivariate import select_copula
+    fam, tau, seed, n = job
+    rs = np.random.RandomState(seed)
+    X = np.clip(draw(fam, theta_of(fam, tau), n, rs), 1e-9, 1 - 1e-9)
+    probs = []
+    seen = set()
+    for k in range(6):
+        np.random.seed(1000 + k)
+        st = np.random.get_state()
+        try:
+            c = select_copula(X.copy())
+        except Exception as ex:
+            return [('raised-' + type(ex).__name__, 'n=%d' % n)]
+        st2 = np.random.get_state()
+        if not (st[0] == st2[0] and np.array_equal(st[1], st2[1]) and st[2:] == st2[2:]):
+            probs.append(('global-generator-advanced', 'n=%d call %d' % (n, k)))
+        seen.add((c.copula_type.name, float(c.theta)))
+    if len(seen) > 1:
+        probs.append(('not-deterministic:repeated-calls-on-a-large-sample', '%d different answers for one array of %d rows: %s' % (len(seen), n, sorted(seen)[:3])))
+    return sorted(set(probs))
 
 
 def _neighbours(job):
@@ -138,7 +176,7 @@ def run(ctx):
                 'calibration, identically on a second call with another global RNG state, on permuted rows and through the deprecated alias; '
                 '(b) recovery: samples of n=3000 and 7777 (thorough: also 5000, 12345) from Clayton / Frank / Gumbel drawn by independent samplers (conditional inverse, '
                 'Marshall-Olkin) at tau 0.3, 0.5, 0.7, %s seeds per cell; TLC (Acceptance) requires >= 70 %% recovered per cell. '
-                '(c) five sequences of 14 neighbouring data sets (n = 150..400, taus a few 1e-4 apart) selected one after the other in one process: each answer is the calibration of its own tau.  non-trivial = positive tau (more than one candidate); distinct by input') % (('6', '10') if quick else ('7', '40'))
+                '(d) samples of 6000 rows (thorough: also 12001) at tau 0.04 / 0.09 selected six times under different global generator states: one answer, generator untouched; an earlier result is not changed by later calls; (c) five sequences of 14 neighbouring data sets (n = 150..400, taus a few 1e-4 apart) selected one after the other in one process: each answer is the calibration of its own tau.  non-trivial = positive tau (more than one candidate); distinct by input') % (('6', '10') if quick else ('7', '40'))
     ctx.assumptions = ['the scoring arithmetic of select_copula is not pinned (any member of the candidate set is accepted)',
                        'recovery samplers are the harness\'s own (not the library\'s)']
     cases = get_cases(ctx, 6 if quick else 7, 4 if quick else 5, given_cases(ctx.seed + 2, 60 if quick else 500))
@@ -152,6 +190,15 @@ def run(ctx):
         njobs = [(f, t, ctx.seed * 31 + i, n, 14) for i, (f, t, n) in enumerate((('FRANK', 0.45, 150), ('FRANK', 0.2, 400), ('CLAYTON', 0.5, 150),
                                                                                ('GUMBEL', 0.6, 200), ('FRANK', 0.7, 250)))]
         nres = pool.map(_neighbours, njobs, chunksize=1)
+        bjobs = [(f, t, ctx.seed * 17 + i, n) for i, (f, t, n) in enumerate([(f, t, n) for f in ('CLAYTON', 'FRANK', 'GUMBEL') for t in (0.04, 0.09)
+                                                                             for n in ((6000,) if quick else (6000, 12001))])]
+        bres = pool.map(_large, bjobs, chunksize=1)
+    for job, probs in zip(bjobs, bres):
+        ctx.case('large|' + json.dumps(job))
+        for p, detail in probs:
+            ctx.violation('C11|select_copula|%s|large-sample' % p, 'select_copula: %s (%s, %s sample at tau %.2f)' % (p, detail, job[0], job[1]),
+                          {'rerun': ['harness.props.C11._large', list(job)]})
+    ctx.traces += len(bjobs)
     for job, probs in zip(njobs, nres):
         ctx.case('neighbours|' + json.dumps(job))
         for p, detail in probs:
